@@ -136,9 +136,14 @@ def step_membership_enumeration(c, maxN, maxsteps):
     tiny spacings, negative offsets): every node receives the parameter of the documented step interval (exact rational membership)"""
     bad = []; count = 0
     fams = ((0.0, 1.0), (250000.0, 1.0), (1.7e9, 60.0), (-4e5, 0.5), (1.0, 2.0 ** -20), (0.0, 2.0 ** -30), (-7.0, 0.25), (3.0e6, 2.0 ** -3))
-    for (x0, h) in fams:
+    grids = [((x0, h), (lambda N, x0=x0, h=h: x0 + h * np.arange(N))) for (x0, h) in fams]
+    # grids whose node coordinates are NOT exactly representable (linspace): the documented rule is about the equidistant nodes, i.e.
+    # node j lies in step i iff i (N-1) < j n_steps <= (i+1) (N-1); rounding of the node coordinates must not move a node to another step
+    grids += [(('linspace', a, b), (lambda N, a=a, b=b: np.linspace(a, b, N))) for (a, b) in ((0.0, 1.0), (0.0, 10.0), (0.1, 0.7), (-3.0, 5.0))]
+    for (tag, mkgrid) in grids:
+        x0, h = tag[0], tag[1]
         for N in range(2, maxN + 1):
-            grid = x0 + h * np.arange(N)
+            grid = mkgrid(N)
             for ns in range(1, min(maxsteps, N) + 1):
                 try: g = StepExpansion(grid, n_steps=ns)
                 except ValueError: continue
